@@ -10,18 +10,18 @@ PROPS = {
             c10.rule_fixpoints, r21.rule_R21_dedupe, r22.rule_R22_context, r22.rule_R22_lookahead, r22.rule_R22_phases, r22.rule_R22_distance_class, r22.rule_R22_dedupe_pair],
     "C01": [r6.rule_R6_flags, r6.rule_R6_debug, r7.rule_T3, c10.rule_fixpoints, r15.rule_R15, r20.rule_R20, r21.rule_R21, r21.rule_R21_dedupe, r22.rule_R22_context, r22.rule_R22_lookahead, r22.rule_R22_boundaries, r22.rule_R22_cache_key, r22.rule_R22_bit_tests, r22.rule_R22_phases, r22.rule_R22_distance_class, r22.rule_R22_dedupe_pair, r22.rule_R22_replacement],
     "C03": [c03.rule_table_complete, c03.rule_origins_followed, c03.rule_alt_not_alt, c03.rule_candidates, c03.rule_reuse, c03.rule_copy_consistency, c03.rule_copy_slots, c03.rule_nil_at_pop, c03.rule_place_only, c03.rule_parent_state, c03.rule_parent_disp, c03.rule_slot_pairing, c03.rule_list_owner, r20.rule_R20_dag, r7.rule_translation_reading, r13.rule_births, r15.rule_R15, r21.rule_R21, r21.rule_R21_dedupe, c10.rule_fixpoints],
-    "C02": [c03.rule_copy_consistency, c03.rule_copy_slots, c03.rule_nil_at_pop, c03.rule_place_only, c03.rule_parent_state, c03.rule_parent_disp, c03.rule_slot_pairing, c03.rule_list_owner, r7.rule_T1, r7.rule_translation_reading, r13.rule_births, r4.rule_R4d, r13.rule_R13_marks, r13.rule_marks_final, r12.rule_R1c],
+    "C02": [c03.rule_copy_consistency, c03.rule_copy_slots, c03.rule_nil_at_pop, c03.rule_place_only, c03.rule_parent_state, c03.rule_parent_disp, c03.rule_slot_pairing, c03.rule_list_owner, r7.rule_T1, r21.rule_R21, r7.rule_translation_reading, r13.rule_births, r4.rule_R4d, r13.rule_R13_marks, r13.rule_marks_final, r12.rule_R1c],
     "C06": [r7.rule_T3, r7.rule_first_ignored, r16.rule_back_cost, r5.rule_token_intake, r7.rule_T1, r15.rule_R15, r22.rule_R22_lookahead, c10.rule_fixpoints, r16.rule_total_loss],
     "C09": [r6.rule_R6_debug, r5.rule_setters, r12.rule_R12, r15.rule_R15, c10.rule_fixpoints, r20.rule_R20, r21.rule_R21_dedupe, r22.rule_R22_context, r22.rule_R22_lookahead, r22.rule_R22_cache_key, r22.rule_R22_bit_tests, r22.rule_R22_dedupe_pair, r22.rule_R22_replacement],
     "C10": [r20.rule_R20_symbols, c10.rule_code_table, c10.rule_fixpoints, r5.rule_undefined_typestate, r2e.rule_R2e, r5.rule_parse_entry],
     "C11": [c11.rule_implicit_codes, c11.rule_declaration_merge, c11.rule_line_count, c11.rule_keyword, c11.rule_lexer_discipline, c11.rule_costs_and_replay, lexer.rule_R4b, r4.rule_R4a, r4.rule_R4f, r14.rule_R14],
-    "C12": [r14.rule_R14, r12.rule_R12, r4.rule_R4a, r4.rule_R4f, r4.rule_R4g, r4.rule_R4h, lexer.rule_R4b, r4.rule_R4c, r4.rule_R4d, r5.rule_setters, r3.rule_R3c, c10.rule_code_table, c10.rule_fixpoints, r16.rule_index_spaces, r16.rule_parallel_arrays, r16.rule_pl_capacity, r16.rule_total_loss, r16.rule_back_cost, r7.rule_first_ignored, r21.rule_R21, r4.rule_R4e, c03.rule_copy_consistency, r25.rule_R25_use],
+    "C12": [r14.rule_R14, r12.rule_R12, r4.rule_R4a, r4.rule_R4f, r4.rule_R4g, r4.rule_R4h, lexer.rule_R4b, r4.rule_R4c, r4.rule_R4d, r5.rule_setters, r3.rule_R3c, c10.rule_code_table, c10.rule_fixpoints, r16.rule_index_spaces, r16.rule_parallel_arrays, r16.rule_parallel_save, r16.rule_pl_capacity, r16.rule_total_loss, r16.rule_back_cost, r7.rule_first_ignored, r21.rule_R21, r4.rule_R4e, c03.rule_copy_consistency, r25.rule_R25_use],
     "C13": [r13.rule_births, r13.rule_T4, r13.rule_release_nonnull, r13.rule_collect, r25.rule_R25_use, r13.rule_compaction, r13.rule_cost_marks, r13.rule_R13_dedupe, r13.rule_R13_marks, r13.rule_marks_final, r13.rule_single_release_conditions, r13.rule_free_tree_null, r11.rule_R11_switch, r11.rule_R11_sweep, r5.rule_parse_entry, r12.rule_R1c, r7.rule_T1],
     "C14": [r12.rule_term_set_numbers, r12.rule_term_set_publish, r25.rule_R25, r25.rule_R25_cxx, r25.rule_R25_use, r25.rule_R25_use_cxx, r4.rule_R4e, r3.rule_R3e, r1.rule_R1a, r1.rule_R1b, r12.rule_R1c, r12.rule_R12, r2e.rule_R2e, r5.rule_undefined_typestate],
     "C15": [r5.rule_defaults, r5.rule_setters, r5.rule_parse_entry, r5.rule_token_intake, r5.rule_undefined_typestate, r3.rule_R3d, r1.rule_R1a, r4.rule_R4c, r4.rule_R4d, r4.rule_R4a, r4.rule_R4f, r4.rule_R4h],
-    "C16": [r8.rule_R8, r8.rule_R8_probes, r8.rule_forwarding, r8.rule_R2f, r17.rule_R17, r17.rule_R17_cxx, r26.rule_R26, r19.rule_R19, r19.rule_R19_cxx, r18.rule_R18, r18.rule_R18_cxx, r19.rule_R23, r19.rule_R23_cxx, r24.rule_R24_room, r24.rule_R24_room_cxx, r24.rule_R24_clear, r24.rule_R24_clear_cxx, r24.rule_R24_tomb, r24.rule_R24_tomb_cxx, r24.rule_R24_sole, r24.rule_R24_sole_cxx, r28.rule_R28, r28.rule_R28_cxx, r25.rule_R25, r25.rule_R25_cxx, r25.rule_R25_use, r25.rule_R25_use_cxx],
+    "C16": [r8.rule_R8, r8.rule_R8_probes, r8.rule_forwarding, r8.rule_R2f, r17.rule_R17, r17.rule_R17_cxx, r26.rule_R26, r14.rule_R14_cxx, r19.rule_R19, r19.rule_R19_cxx, r18.rule_R18, r18.rule_R18_cxx, r19.rule_R23, r19.rule_R23_cxx, r24.rule_R24_room, r24.rule_R24_room_cxx, r24.rule_R24_clear, r24.rule_R24_clear_cxx, r24.rule_R24_tomb, r24.rule_R24_tomb_cxx, r24.rule_R24_reserve, r24.rule_R24_reserve_cxx, r24.rule_R24_first_length, r24.rule_R24_first_length_cxx, r24.rule_R24_walk_free, r24.rule_R24_walk_free_cxx, r24.rule_R24_sole, r24.rule_R24_sole_cxx, r28.rule_R28, r28.rule_R28_cxx, r25.rule_R25, r25.rule_R25_cxx, r25.rule_R25_use, r25.rule_R25_use_cxx],
     "C18": [r27.rule_consing, r27.rule_consing_cxx, r27.rule_hash_covers_key, r27.rule_goto_cache, r27.rule_growth, r27.rule_growth_cxx, r27.rule_growth_storage, r27.rule_growth_storage_cxx, r28.rule_R28, r28.rule_R28_cxx, r15.rule_R15, r20.rule_R20, r26.rule_R26],
-    "C19": [r8.rule_R8, r8.rule_R8_probes, r8.rule_R2f, r4.rule_R4d, r19.rule_R19, r19.rule_R19_cxx, r18.rule_R18, r18.rule_R18_cxx, r19.rule_R23, r19.rule_R23_cxx, r24.rule_R24_room, r24.rule_R24_room_cxx, r24.rule_R24_clear, r24.rule_R24_clear_cxx, r24.rule_R24_tomb, r24.rule_R24_tomb_cxx, r24.rule_R24_sole, r24.rule_R24_sole_cxx, r28.rule_R28, r28.rule_R28_cxx],
+    "C19": [r8.rule_R8, r8.rule_R8_probes, r8.rule_R2f, r4.rule_R4d, r19.rule_R19, r19.rule_R19_cxx, r18.rule_R18, r18.rule_R18_cxx, r19.rule_R23, r19.rule_R23_cxx, r24.rule_R24_room, r24.rule_R24_room_cxx, r24.rule_R24_clear, r24.rule_R24_clear_cxx, r24.rule_R24_tomb, r24.rule_R24_tomb_cxx, r24.rule_R24_reserve, r24.rule_R24_reserve_cxx, r24.rule_R24_first_length, r24.rule_R24_first_length_cxx, r24.rule_R24_walk_free, r24.rule_R24_walk_free_cxx, r24.rule_R24_sole, r24.rule_R24_sole_cxx, r28.rule_R28, r28.rule_R28_cxx],
     "C17": [r3.rule_R3a, r3.rule_R3b, r3.rule_R3c, r3.rule_R3d, r3.rule_R3e, r3.rule_allocator_discipline, r1.rule_R1a, r1.rule_R1b, r12.rule_R1c, r12.rule_term_set_numbers, r12.rule_term_set_publish, r17.rule_R17, r17.rule_R17_cxx, r19.rule_R23, r19.rule_R23_cxx],
 }
 
